@@ -56,7 +56,8 @@ fn gen_box(rng: &mut Xo, dim: usize) -> Vec<(f64, f64)> {
     (0..dim)
         .map(|_| {
             let lo = if rng.chance(0.3) { 0.0 } else { rng.range(-10.0, 10.0) };
-            let len = if rng.chance(0.5) { 10.0 } else { rng.log_range(0.5, 20.0) };
+            // (one box side in twenty is very thin: aspect ratios up to 1e4)
+            let len = if rng.chance(0.05) { rng.log_range(1e-3, 0.05) } else if rng.chance(0.5) { 10.0 } else { rng.log_range(0.5, 20.0) };
             (lo, lo + len)
         })
         .collect()
@@ -72,7 +73,12 @@ fn gen_so2_bounds(rng: &mut Xo, angular_bias: bool) -> Option<(f64, f64)> {
         0 | 1 => None,
         2 => {
             let lo = rng.range(-PI, PI - 0.5);
-            Some((lo, rng.range(lo + 0.4, PI)))
+            // a third of these intervals end exactly at the seam (+pi or -pi)
+            match rng.below(6) {
+                0 => Some((lo, PI)),
+                1 => Some((-PI, rng.range(-PI + 0.4, PI - 0.1))),
+                _ => Some((lo, rng.range(lo + 0.4, PI))),
+            }
         }
         _ => Some((-PI + rng.range(0.05, 0.5), PI - rng.range(0.05, 0.5))),
     }
@@ -146,7 +152,7 @@ pub fn gen_space(rng: &mut Xo, o: &GenOpts) -> SpaceSpec {
     let mf = o.min_frac;
     match kind {
         "RV" => {
-            let dim = rng.usize_in(1, 4);
+            let dim = if rng.chance(0.08) { rng.usize_in(5, 8) } else { rng.usize_in(1, 4) };
             SpaceSpec::RV { dim, bounds: Some(gen_box(rng, dim)), frac: pick_frac(rng, mf) }
         }
         "SO2" => SpaceSpec::SO2 { bounds: gen_so2_bounds(rng, o.angular_bias), frac: pick_frac(rng, mf) },
@@ -164,7 +170,7 @@ pub fn gen_space(rng: &mut Xo, o: &GenOpts) -> SpaceSpec {
                     2 => SpaceSpec::SO2 { bounds: gen_so2_bounds(rng, o.angular_bias), frac: pick_frac(rng, mf) },
                     _ => SpaceSpec::SO3 { bounds: gen_so3_bounds(rng, o.angular_bias), frac: pick_frac(rng, mf) },
                 });
-                weights.push(*rng.pick(&[0.0, 1e-3, 0.5, 1.0, 1.0, 1.0, 10.0]));
+                weights.push(*rng.pick(&[0.0, 1e-3, 0.5, 1.0, 1.0, 1.0, 10.0, 1e3]));
             }
             if weights.iter().all(|w| *w == 0.0) {
                 weights[0] = 1.0;
@@ -739,6 +745,9 @@ pub fn gen_planner(rng: &mut Xo, kind: PlannerKind, ext: f64) -> PlannerSpec {
         1 => ext * rng.range(1.0, 10.0),
         _ => ext * rng.range(0.1, 0.6),
     };
+    // degenerate radii: exactly 0 (RRT* then has no neighbours, PRM no links)
+    let search_radius = if rng.chance(0.03) { 0.0 } else { search_radius };
+    let connection_radius = if rng.chance(0.02) { 0.0 } else { connection_radius };
     PlannerSpec {
         kind,
         max_distance,
@@ -911,6 +920,30 @@ pub fn base(rng: &mut Xo, prop: &str, seed: u64, index: u64, o: &GenOpts) -> Sce
     params.insert("sealed".into(), if wb.sealed { 1.0 } else { 0.0 });
     params.insert("start_invalid".into(), if wb.start_invalid { 1.0 } else { 0.0 });
     let mut sampler = o.goal_sampler.unwrap_or_else(|| *rng.pick(&[GoalSampler::Fixed, GoalSampler::Harness, GoalSampler::Harness]));
+    // degenerate goal regions: a single state (radius 0, reached only by sampling it), or one so
+    // large that it contains the start
+    let mut wb = wb;
+    if !wb.sealed && !wb.start_invalid && wb.goal_comp.is_none() && o.goal_sampler.is_none() && matches!(wb.family, "open" | "balls") {
+        match rng.below(40) {
+            0 => {
+                // (only where the target is at distance exactly 0 from itself in both metrics —
+                // unit quaternions whose self-product rounds below 1 are 3e-8 away from
+                // themselves, and a goal whose own sample fails its predicate is a user error)
+                let self_d = geo.d(&wb.target, &wb.target).max(crate::spaces::HMetric::new(&space).d(&wb.target, &wb.target));
+                if self_d == 0.0 {
+                    wb.goal_radius = 0.0;
+                    sampler = GoalSampler::Fixed;
+                }
+            }
+            1 => {
+                let d = geo.d(&wb.start, &wb.target);
+                if d.is_finite() && d > 0.0 {
+                    wb.goal_radius = d * rng.range(1.05, 2.0);
+                }
+            }
+            _ => {}
+        }
+    }
     if wb.family == "zero_weight" && sampler != GoalSampler::Planner && rng.chance(0.5) {
         sampler = GoalSampler::Turn;
     }
@@ -995,6 +1028,14 @@ pub fn base(rng: &mut Xo, prop: &str, seed: u64, index: u64, o: &GenOpts) -> Sce
             params.insert("start_on_goal".into(), 1.0);
         }
     }
+    // (a later tweak may have replaced the target of a single-state goal: it must still be at
+    // distance exactly 0 from itself, or the goal's own sample would fail its predicate)
+    if wb.goal_radius == 0.0 {
+        let self_d = geo.d(&wb.target, &wb.target).max(crate::spaces::HMetric::new(&space).d(&wb.target, &wb.target));
+        if !(self_d == 0.0) {
+            wb.goal_radius = 0.05 * ext;
+        }
+    }
     // the problem definition holds a LIST of start states; the planners plan from the first. A
     // tenth of the problems (half of those whose first start is rejected) list a second, valid one.
     let starts = {
@@ -1030,6 +1071,23 @@ pub fn base(rng: &mut Xo, prop: &str, seed: u64, index: u64, o: &GenOpts) -> Sce
         faults: vec![],
         params,
         expect: None,
+    }
+}
+
+/// A single-state goal (radius 0) is only consistent when its target is at distance exactly 0
+/// from itself in both metrics; otherwise the goal's own sample would fail its predicate.
+/// Problems derived from another one inherit its radius with a new target: re-check.
+pub fn fix_point_goals(scn: &mut Scenario) {
+    let ext = scn.param("ext").unwrap_or(1.0);
+    for i in 0..scn.problems.len() {
+        if scn.problems[i].goal.radius == 0.0 {
+            let sp = scn.problems[i].space.clone().unwrap_or_else(|| scn.space.clone());
+            let t = scn.problems[i].goal.target.clone();
+            let d = geo_for(&sp).map(|g| g.d(&t, &t)).unwrap_or(f64::NAN).max(crate::spaces::HMetric::new(&sp).d(&t, &t));
+            if !(d == 0.0) {
+                scn.problems[i].goal.radius = 0.05 * ext;
+            }
+        }
     }
 }
 
